@@ -71,6 +71,19 @@ type c11Cats struct {
 	rev             [6]*big.Int // storage, ingress, egress, regread, regwrite, rpc
 }
 
+func c11SnapString[T ~[]E, E ~[4]c11Cats](s T) string {
+	var b strings.Builder
+	for v, row := range s {
+		for c, x := range row {
+			if x.funding == nil {
+				continue
+			}
+			fmt.Fprintf(&b, "v%d/c%d: funding %v risked %v revenue %v; ", v, c, x.funding, x.risked, x.rev)
+		}
+	}
+	return b.String()
+}
+
 func (c c11Cats) revenue() *big.Int {
 	s := new(big.Int)
 	for _, r := range c.rev {
@@ -103,16 +116,19 @@ func TestVerifC11(t *testing.T) {
 
 	const nAcct, nCon = 4, 3
 	n := verifN(300)
-	const nDirected = 6
+	const nDirected = 7
 	for id := 0; id < n+nDirected; id++ {
 		if em.Skip(id) {
 			continue
 		}
 		rng := verifCaseRand(id)
-		db, err := OpenDatabase(filepath.Join(t.TempDir(), fmt.Sprintf("c11_%d.db", id)), zap.NewNop())
+		// the store runs on the fault-injecting driver of the C08 harness: `faultNext >= 0` makes
+		// the faultNext-th database call of the next credit/debit fail
+		db, ctl, err := c08OpenHookStore(filepath.Join(t.TempDir(), fmt.Sprintf("c11_%d.db", id)), zap.NewNop())
 		if err != nil {
 			t.Fatal(err)
 		}
+		faultNext := -1
 		em.BeginCase(id, "funding attribution history")
 		reported := map[string]bool{}
 		monitor := func(sig, detail string) {
@@ -192,6 +208,31 @@ func TestVerifC11(t *testing.T) {
 				}
 			}
 			return
+		}
+
+		// withFault runs a store call with the pending fault (if any) armed.  faulted = the fault
+		// fired and the call reported an error: the call is then not recorded for the model; it
+		// must have left every funding record, every contract's unspent funding and revenue as
+		// they were (the observation that follows is checked against the unchanged model state).
+		// A fault the call swallows is recorded as the success the call claims to be.
+		withFault := func(what string, before [3][nCon + 1]c11Cats, call func() error) (err error, panicked, faulted bool) {
+			k := faultNext
+			faultNext = -1
+			if k >= 0 {
+				ctl.Arm(k, nil)
+			}
+			panicked = guard(what, func() { err = call() })
+			if k >= 0 {
+				_, _, fired := ctl.Disarm()
+				em.Count(fmt.Sprintf("fault:%s:fired=%v,reported=%v", what, fired, err != nil))
+				if fired && err != nil && !panicked {
+					if a, b := c11SnapString(before[:]), c11SnapString(func() [][nCon + 1]c11Cats { x := snapshot(); return x[:] }()); a != b {
+						monitor("failed-funding-call-changed-state", fmt.Sprintf("%s with database call %d failing returned %v; before %s after %s", what, k, err, a, b))
+					}
+					return err, false, true
+				}
+			}
+			return err, panicked, false
 		}
 
 		// the account's history as far as the "came entirely from one protocol version" clause goes
@@ -311,11 +352,14 @@ func TestVerifC11(t *testing.T) {
 		}
 		fund1 := func(c, a int, cost, amt types.Currency) {
 			before := snapshot()
-			var err error
-			panicked := guard("CreditAccountWithContract", func() {
-				err = db.CreditAccountWithContract(accounts.FundAccountWithContract{Account: rhp3.Account(c11Key(a)), Cost: cost, Amount: amt,
+			err, panicked, faulted := withFault("CreditAccountWithContract", before, func() error {
+				return db.CreditAccountWithContract(accounts.FundAccountWithContract{Account: rhp3.Account(c11Key(a)), Cost: cost, Amount: amt,
 					Revision: c11Rev(c), Expiration: time.Now().Add(time.Hour)})
 			})
+			if faulted {
+				observe()
+				return
+			}
 			obs := "ODone"
 			if panicked {
 				obs = "OPanic"
@@ -346,10 +390,14 @@ func TestVerifC11(t *testing.T) {
 			u := extra
 			u.AccountFunding = total // what rhp4.ReviseForFundAccounts passes
 			var bals []types.Currency
-			var err error
-			panicked := guard("RHP4CreditAccounts", func() {
+			err, panicked, faulted := withFault("RHP4CreditAccounts", snapshot(), func() (err error) {
 				bals, err = db.RHP4CreditAccounts(deps, c11ID(2, c), types.V2FileContract{RevisionNumber: 1, ProofHeight: 100, ExpirationHeight: 200}, u)
+				return
 			})
+			if faulted {
+				observe()
+				return
+			}
 			obs := ""
 			if panicked {
 				obs = "OPanic"
@@ -431,8 +479,11 @@ func TestVerifC11(t *testing.T) {
 		}
 		debit1 := func(a int, u accounts.Usage) {
 			before := snapshot()
-			var err error
-			panicked := guard("DebitAccount", func() { err = db.DebitAccount(rhp3.Account(c11Key(a)), u) })
+			err, panicked, faulted := withFault("DebitAccount", before, func() error { return db.DebitAccount(rhp3.Account(c11Key(a)), u) })
+			if faulted {
+				observe()
+				return
+			}
 			obs := "ODone"
 			if panicked {
 				obs = "OPanic"
@@ -450,8 +501,11 @@ func TestVerifC11(t *testing.T) {
 		}
 		debit2 := func(a int, u proto4.Usage) {
 			before := snapshot()
-			var err error
-			panicked := guard("RHP4DebitAccount", func() { err = db.RHP4DebitAccount(proto4.Account(c11Key(a)), u) })
+			err, panicked, faulted := withFault("RHP4DebitAccount", before, func() error { return db.RHP4DebitAccount(proto4.Account(c11Key(a)), u) })
+			if faulted {
+				observe()
+				return
+			}
 			obs := "ODone"
 			if panicked {
 				obs = "OPanic"
@@ -546,6 +600,20 @@ func TestVerifC11(t *testing.T) {
 				debit1(0, accounts.Usage{StorageRevenue: cur(1), RegistryRead: cur(1), RPCRevenue: cur(1)})
 				debit2(1, proto4.Usage{Storage: cur(1), Egress: cur(1), RPC: cur(1)})
 			}
+		case 6: // a database fault at every call of a credit and of a debit that spans two funding contracts
+			addAll()
+			for k := 0; k < 40; k++ {
+				faultNext = k
+				fund1(1+k%2, 0, cur(1), cur(4))
+				faultNext = k
+				fund2(1+k%2, []proto4.AccountDeposit{dep(1, 3), dep(2, 1)}, []int{1, 2}, proto4.Usage{})
+			}
+			for k := 0; k < 40; k++ {
+				faultNext = k
+				debit1(0, accounts.Usage{StorageRevenue: cur(3), EgressRevenue: cur(2)}) // more than one contract's share
+				faultNext = k
+				debit2(1, proto4.Usage{Storage: cur(3), Egress: cur(1)})
+			}
 		default:
 			addAll()
 			small := func() types.Currency {
@@ -634,6 +702,9 @@ func TestVerifC11(t *testing.T) {
 				}
 				v := versionFor(a)
 				r := rng.Intn(100)
+				if id%3 == 0 && rng.Intn(5) == 0 { // one call in five of every third case runs into a database fault
+					faultNext = rng.Intn(24)
+				}
 				if r >= 38 && r < 88 && balance(a).IsZero() && rng.Intn(6) > 0 {
 					r = 0 // nothing to debit yet: deposit instead
 				}
